@@ -69,7 +69,7 @@ def eval_case(case, rec, count=True):
             initial = make_value(ctype, 'initial', 3)
             cache.get_or_compute(key, lambda: initial)
             produced['initial'] = initial
-        s = coop.Sched(case['schedule'], chunks=case['chunks'])
+        s = coop.Sched(case.get('schedule', []), chunks=case['chunks'], segments=case.get('segments'))
         computes = {}
 
         def caller_fn(i, op):
@@ -207,6 +207,7 @@ def eval_case(case, rec, count=True):
                   'populated' if case['populated'] else 'empty']
             if overlap:
                 cl.append('overlap-with-writer')
+            cl.append('schedule:segments' if case.get('segments') is not None else 'schedule:choices')
             rec.case(case, nontrivial=overlap, classes=cl, key=hyp.digest([case['ctype'], case['populated'], case['ops'],
                                                                            case['chunks'], s.choice_log]),
                      sample={'case': case, 'trace': s.trace[:60]})
@@ -218,6 +219,17 @@ def eval_case(case, rec, count=True):
 @st.composite
 def cases(draw, n_callers=(2, 3)):
     n = draw(st.integers(*n_callers))
+    if draw(st.booleans()):
+        # preemption-bounded schedule: a few long uninterrupted segments (reaches deep interleavings that uniformly
+        # random choices practically never produce)
+        return {
+            'ctype': draw(st.sampled_from(['json', 'json', 'numpy', 'frame', 'numpy-large'])),
+            'populated': draw(st.booleans()),
+            'ops': [draw(st.sampled_from(OPS)) for _ in range(n)],
+            'chunks': draw(st.integers(1, 3)),
+            'segments': draw(st.lists(st.tuples(st.integers(0, n - 1), st.integers(1, 16)).map(list), min_size=2,
+                                      max_size=8)),
+        }
     return {
         'ctype': draw(st.sampled_from(['json', 'json', 'numpy', 'frame', 'numpy-large', 'numpy-large'])),
         'populated': draw(st.booleans()),
@@ -258,7 +270,7 @@ def dfs(config, rec, limit):
 
 def plan(tier):
     q = tier == 'quick'
-    shards = [{'kind': 'random', 'examples': 350 if q else 8000} for _ in range(6 if q else 8)]
+    shards = [{'kind': 'random', 'examples': 900 if q else 12000} for _ in range(6 if q else 8)]
     configs = []
     for ctype in (['json'] if q else ['json', 'numpy', 'frame']):
         for populated in (False, True):
